@@ -352,7 +352,46 @@ def gen_c19():
     return rel
 
 
-GROUPS = {"C19": gen_c19, "C20": gen_c20, "C17": gen_c17, "C16": gen_c16, "C06": gen_c06, "C08": gen_c08}
+# ------------------------------------------------------------------------------------------ C07: which errors are reported
+
+def gen_c07():
+    rel = "Gen/C07/ReportOps.v"
+    try:
+        ctoks = R.lex(open(os.path.join(common.REPO, "src/comment.rs")).read())
+        ltoks = R.lex(open(os.path.join(common.REPO, "src/lib.rs")).read())
+        ftoks = R.lex(open(os.path.join(common.REPO, "src/formatting.rs")).read())
+        ctx = R.Ctx({}, getters={"error_on_unformatted": ("eou", "bool"), "error_on_line_overflow": ("eol", "bool")},
+                    opaque={"self.current_line_contains_string_literal": ("has_strlit", "bool")})
+        ctx.enums = {"FullCodeCharKind": "kind", "ErrorKind": "error_kind", "& ErrorKind": "error_kind"}
+        for v in ["Normal", "StartComment", "InComment", "EndComment", "StartStringCommented", "EndStringCommented", "InStringCommented", "StartString", "EndString", "InString"]:
+            ctx.variants[v] = v
+        ctx.variants.update({"LineOverflow": "LineOverflow _ _", "TrailingWhitespace": "TrailingWhitespace", "DeprecatedAttr": "DeprecatedAttr", "BadAttr": "BadAttr",
+                             "LostComment": "LostComment", "IoError": "IoError", "ModuleResolutionError": "ModuleResolutionError", "ParseError": "ParseError",
+                             "VersionMismatch": "VersionMismatch", "InvalidGlobPattern": "InvalidGlobPattern"})
+        out = [HEADER % (rel, "src/comment.rs, src/lib.rs, src/formatting.rs"), "From V Require Import Base.Text Base.Tie C07.Model.", "Open Scope N_scope.", ""]
+        t, _ = R.translate_fn(ctx, ctoks, "FullCodeCharKind", "is_comment", "g_kind_is_comment", self_ty="FullCodeCharKind")
+        out.append(t)
+        t, _ = R.translate_fn(ctx, ltoks, "ErrorKind", "is_comment", "g_ek_is_comment", self_ty="ErrorKind")
+        out.append(t)
+        lo, hi = R.find_impl(ftoks, "< 'a > FormatLines < 'a >")
+        p = R.P(ftoks, R.find_fn(ftoks, lo, hi, "should_report_error"))
+        name, params, ret, body = p.fn()
+        tr = R.Tr(ctx, None, {"char_kind": "FullCodeCharKind", "error_kind": "ErrorKind"})
+        term, ty = tr.blk(body)
+        out.append("(* FormatLines::should_report_error; eou / eol = config.error_on_unformatted() / error_on_line_overflow(), has_strlit = self.current_line_contains_string_literal *)\n"
+                   "Definition g_should_report_error (eou eol has_strlit : bool) (char_kind : kind) (error_kind : error_kind) : bool :=\n  %s.\n" % term)
+        U = ["g_kind_is_comment", "g_ek_is_comment", "g_should_report_error", "should_report_error", "is_comment", "ek_is_comment"]
+        out.append(_theorem("tie_kind_is_comment", "forall k, g_kind_is_comment k = is_comment k", U, "intros k. destruct k; reflexivity."))
+        out.append(_theorem("tie_ek_is_comment", "forall e, g_ek_is_comment e = ek_is_comment e", U, "intros e. destruct e; reflexivity."))
+        out.append(_theorem("tie_should_report_error", "forall cfg st k e, g_should_report_error (error_on_unformatted cfg) (error_on_line_overflow cfg) (has_strlit st) k e = should_report_error cfg st k e", U,
+                            "intros cfg st k e. unfold g_should_report_error, should_report_error, g_kind_is_comment, g_ek_is_comment, is_comment, ek_is_comment. destruct k, e; reflexivity."))
+        _write(rel, "\n".join(out))
+    except (R.Unsupported, AssertionError, KeyError, IndexError, ValueError) as e:
+        _failed(rel, "report_ops", e)
+    return rel
+
+
+GROUPS = {"C07": gen_c07, "C19": gen_c19, "C20": gen_c20, "C17": gen_c17, "C16": gen_c16, "C06": gen_c06, "C08": gen_c08}
 
 
 def gen_all():
